@@ -199,6 +199,11 @@ def check_case(ctx: core.Ctx, p: gen_project.Project, kind: str, sde: str | None
         r1 = build_both(root1, base / "out1", p, sde, kw)
         if kw.get("listing"):
             ctx.count("listings-permuted", r1["listings"]["listings"])
+        avoid_ok: bool | None = None
+        if kind in ("leftovers", "all"):
+            av = core.run_driver([core.line("bavoid", pack(*leftover_tops(p)), *glob_specs(p))])[0]
+            avoid_ok = av[0] == "ok" and all(x == "1" for x in av[1:])
+            ctx.count("leftovers:model-avoids" if avoid_ok else "leftovers:model-reaches:" + ",".join(av[1:]))
         lines: list[str] = []
         slots: list[tuple[str, Any]] = []
         for fmt in ("wheel", "sdist"):
@@ -219,7 +224,9 @@ def check_case(ctx: core.Ctx, p: gen_project.Project, kind: str, sde: str | None
             # ---- the property on the real files: names, bytes, timestamps
             if b0.returned != b1.returned:
                 ctx.violate("name:" + ck, f"{fmt} file name changed by {kind}: {b0.returned!r} vs {b1.returned!r}", wit)
-            if r0[fmt + "_bytes"] != r1[fmt + "_bytes"]:
+            if kind in ("leftovers", "all") and avoid_ok is False and r0[fmt + "_bytes"] != r1[fmt + "_bytes"]:
+                ctx.count("out-of-quantifier:include-reaches-leftovers")     # the configuration itself selects dist/ or build/
+            elif r0[fmt + "_bytes"] != r1[fmt + "_bytes"]:
                 c0, c1 = d0.canonical(), d1.canonical()
                 diff = next((f"{a} != {b}" for a, b in zip(c0, c1) if a != b), f"{len(c0)} vs {len(c1)} entries")
                 where = "description differs: " + diff if c0 != c1 else "descriptions equal, encoder output differs"
@@ -410,6 +417,72 @@ def setup_stream(ctx: core.Ctx, p: gen_project.Project, pseed: int) -> None:
         bc.rmtree(base)
 
 
+LEGAL_ROOT = ["COPYING*", "LICEN[SC]E*", "AUTHORS*", "NOTICE*"]
+
+
+def glob_specs(p: gen_project.Project) -> list[str]:
+    """the project's include rules as (base, pattern, isPackage) — input of the model's `GlobSpec.avoids`"""
+    meta = p.meta
+    mod = meta.get("module", "m")
+    specs: list[tuple[str, str, str]] = []
+    pkgs = meta.get("packages") or []
+    if not pkgs:
+        lay = meta.get("layout", "")
+        base = "src" if lay.endswith("-src") else ""
+        specs.append((base, mod if lay.startswith("package") else mod + ".py", "1"))
+    for e in pkgs:
+        specs.append((e.get("from", "") or "", e["include"], "1"))
+    for inc in meta.get("include") or []:
+        specs.append(("", inc if isinstance(inc, str) else inc["path"], "0"))
+    for pat in LEGAL_ROOT:
+        specs.append(("", pat, "0"))
+    specs.append(("LICENSES", "**/*", "0"))
+    for lit in [meta.get("readme"), "pyproject.toml", *(meta.get("file_scripts") or {}).values()]:
+        if lit:
+            specs.append(("", lit.replace("[", "[[]"), "0"))
+    return [pack(*x) for x in specs]
+
+
+def leftover_tops(p: gen_project.Project) -> list[str]:
+    return ["dist", "build", p.meta.get("module", "m") + ".egg-info", ".pytest_cache"]
+
+
+def reaches_dist_corpus(ctx: core.Ctx) -> None:
+    """The complement of `rebuild_idempotent`'s condition on the real code: with `include = ["dist/*"]` the second sdist
+    build packs the first one.  Not a violation of C08 (the project's own configuration makes dist/ part of its
+    content); recorded so that the boundary stays observed, and the model must predict it."""
+    py = ('[tool.poetry]\nname = "reaches-dist"\nversion = "1.0"\ndescription = ""\nauthors = []\ninclude = ["dist/*"]\n\n'
+          '[tool.poetry.dependencies]\npython = ">=3.8"\n\n' + gen_project.BUILD_SYSTEM)
+    p = gen_project.Project("reaches-dist", "1.0", "poetry", py, [gen_project.FileSpec("reaches_dist/__init__.py", b"x = 1\n")],
+                            None, ["corpus"], {"module": "reaches_dist", "layout": "package-flat", "include": ["dist/*"]})
+    base = bc.scratch("pcv-c08d-")
+    try:
+        root = bc.materialise(p, parent=str(base))
+        (base / "o1").mkdir()
+        (base / "o2").mkdir()
+        b1 = bc.build(root, "sdist", "builder", base / "o1", None, want_log=False)
+        first = b1.path.read_bytes() if b1.ok else b""
+        leave_artefacts(root, p, random.Random(0))          # a previous build's dist/*.whl, dist/*.tar.gz, build/, egg-info
+        left = sorted(x.name for x in (root / "dist").iterdir())
+        b2 = bc.build(root, "sdist", "builder", base / "o2", None, want_log=False)
+        second = b2.path.read_bytes() if b2.ok else b""
+        names2 = [m["name"] for m in bc.read_sdist(b2.path).members] if b2.ok else []
+        rep = core.run_driver([core.line("bavoid", pack(*leftover_tops(p)), *glob_specs(p)),
+                               core.line("bgsel", pack("", "dist/*", "0"), *["dist/" + x for x in left])])
+        model_reaches = "0" in rep[0][1:] and rep[1] == ["ok", "1" * len(left)]
+        real_reaches = all(any(n.endswith("/dist/" + x) for n in names2) for x in left)
+        ctx.case("reaches-dist", nontrivial=b1.ok and b2.ok, sample={"include": ["dist/*"], "second_build_members": names2[:6],
+                                                                 "identical": first == second})
+        ctx.count("out-of-quantifier:include-reaches-dist:" + ("differs" if first != second else "identical"))
+        dis = 0
+        if model_reaches != real_reaches or (real_reaches and first == second):
+            dis = 1
+            ctx.disagree("reaches-dist", {"include": ["dist/*"]}, {"selected": real_reaches, "identical": first == second}, rep)
+        ctx.stream("leftover-boundary", 1, dis)
+    finally:
+        bc.rmtree(base)
+
+
 def time_stream(ctx: core.Ctx) -> None:
     """SOURCE_DATE_EPOCH parsing and calendar: model vs the real properties on a builder object (no build)"""
     from poetry.core.factory import Factory
@@ -472,6 +545,7 @@ def time_stream(ctx: core.Ctx) -> None:
 
 def correspondence(ctx: core.Ctx) -> None:
     time_stream(ctx)
+    reaches_dist_corpus(ctx)
     hashseed_case(ctx, two_bases_project(), (1, 3, 4, 6), "hashseed")   # seeds that gave both orders before 15ba16f
     rnd = ctx.rng
     n = ctx.budget(25, 250)
